@@ -31,10 +31,13 @@ use std::sync::atomic::{AtomicBool, Ordering};
 use std::sync::{mpsc, Mutex};
 use world::*;
 
-/// Boundary values for byte mutation in the quick tier (plus original ^ 0x01). 0x28 (= 40, the
-/// IPv6 header length and the smallest legal 6LoWPAN datagram_size) is added to the set given
-/// in DESIGN.md because several length fields have their edge exactly there.
-const BOUNDARY: [u8; 12] = [0, 1, 7, 8, 0x0f, 0x28, 0x3f, 0x40, 0x7f, 0x80, 0xf0, 0xff];
+/// Boundary values for byte mutation in the quick tier (plus original ^ 0x01). Two values are
+/// added to the set given in DESIGN.md because length fields have their edges exactly there:
+/// 0x28 (= 40, IPv6 header length = smallest legal 6LoWPAN datagram_size) and 0x2f (= 47, one
+/// less than the smallest IPv6 + UDP datagram).
+const BOUNDARY: [u8; 13] = [0, 1, 7, 8, 0x0f, 0x28, 0x2f, 0x3f, 0x40, 0x7f, 0x80, 0xf0, 0xff];
+/// the pair enumeration uses the set exactly as given in DESIGN.md (without 0x28)
+const PAIR_VALUES: [u8; 11] = [0, 1, 7, 8, 0x0f, 0x3f, 0x40, 0x7f, 0x80, 0xf0, 0xff];
 const HEAD: usize = 96;
 const PAIR_HEAD: usize = 40;
 const ADVANCES: [i64; 3] = [0, 1_000, 61_000];
@@ -226,6 +229,9 @@ fn wd_end() {
 /// Every evaluation builds and drops a world (a few dozen small heap blocks). With glibc's
 /// default settings each worker arena keeps growing/shrinking its heap through mprotect/madvise,
 /// and 16 threads then serialise on the process' mmap lock. Keep freed memory instead.
+#[cfg(not(target_env = "gnu"))]
+fn tune_allocator() {}
+#[cfg(target_env = "gnu")]
 fn tune_allocator() {
     extern "C" {
         fn mallopt(param: i32, value: i32) -> i32;
@@ -508,11 +514,11 @@ fn run_unit_inner(base: &Base, tier: Tier, unit: Unit) -> UnitOut {
             let n = seed.frame.len().min(PAIR_HEAD);
             let mut m = seed.frame.clone();
             for p2 in p1 + 1..n {
-                for &v1 in &BOUNDARY {
+                for &v1 in &PAIR_VALUES {
                     if v1 == seed.frame[p1] {
                         continue;
                     }
-                    for &v2 in &BOUNDARY {
+                    for &v2 in &PAIR_VALUES {
                         if v2 == seed.frame[p2] {
                             continue;
                         }
@@ -890,10 +896,10 @@ fn explore(tier: Tier) -> Explored {
 
 pub fn run(tier: Tier) -> i32 {
     let mut rep = Report::new("C03", tier);
-    rep.assumptions.push("bounds: single-frame pass = every seed of the catalogue, every truncation, every single byte of the first 96 bytes (+ DHCP option area, NDISC/DNS message tails, whole 802.15.4 frames) set to the boundary set {0,1,7,8,0x0f,0x28,0x3f,0x40,0x7f,0x80,0xf0,0xff,orig^1} (quick) or to all 256 values (thorough), each raw and with all locatable checksums recomputed; thorough adds every pair of the first 40 bytes x boundary pairs (checksums recomputed) and all byte strings of length <= 2 (quick: first byte from the boundary set); sequences = BFS to depth 2 (quick) / 3 (thorough) over one representative frame per distinct observable effect + time advances {0, 1 s, 61 s}".into());
+    rep.assumptions.push("bounds: single-frame pass = every seed of the catalogue, every truncation, every single byte of the first 96 bytes (+ DHCP option area, NDISC/DNS message tails, whole 802.15.4 frames) set to the boundary set {0,1,7,8,0x0f,0x28,0x2f,0x3f,0x40,0x7f,0x80,0xf0,0xff,orig^1} (quick) or to all 256 values (thorough), each raw and with all locatable checksums recomputed; thorough adds every pair of positions in the first 40 bytes x every pair of values from {0,1,7,8,0x0f,0x3f,0x40,0x7f,0x80,0xf0,0xff} (checksums recomputed) and all byte strings of length <= 2 (quick: first byte from the boundary set); sequences = BFS to depth 2 (quick) / 3 (thorough) over one representative frame per distinct observable effect (reply classes x changed components) + time advances {0, 1 s, 61 s}; thorough additionally depth 2 over one representative per (effect, seed); BFS levels are cut by a wall-clock budget only with exhaustive=false reported".into());
     rep.assumptions.push("every injected frame meets a FRESH world in the base state and is followed by the probe; pair mutants and 2-byte raw frames get oracle (1)+(2) only (they are not fingerprinted, so they do not count in 'changed state')".into());
     rep.assumptions.push("the application model reads and discards received data after every poll and applies DHCP configuration events (IPv4 address, default route) like examples/dhcp_client.rs; trusted: harness frame builders, independent reply classifier".into());
-    rep.assumptions.push("the 802.15.4 worlds used for frame exploration have no joined multicast group (joining one makes the very first poll panic, reported separately) and no IPv4; overflow-checks are ON in this profile, so arithmetic overflow on attacker-controlled lengths is observed as a panic".into());
+    rep.assumptions.push("the 802.15.4 worlds used for frame exploration have no joined multicast group (joining one makes the very first poll panic before any frame is received: recorded under notes_outside_C03, not as a violation) and no IPv4; overflow-checks are ON in this profile, so arithmetic overflow on attacker-controlled lengths is observed as a panic".into());
     rep.assumptions.push(format!("hang detection: > {} device calls inside one poll (deterministic), or a single evaluation exceeding {} s wall clock twice (second time alone on a fresh world)", DEVICE_CALL_LIMIT, wd_secs()));
 
     if std::env::var("VERIF_C03_SELFTEST").as_deref() == Ok("hang") {
